@@ -196,6 +196,9 @@ func (args *RedelegateV2Args) Validate() error {
 	if args.Amount == nil || args.Amount.Sign() <= 0 {
 		return errors.New("invalid amount")
 	}
+	if args.Amount.BitLen() > 128 {
+		return errors.New("amount too large")
+	}
 	return nil
 }
 
@@ -280,6 +283,9 @@ func (args *UndelegateV2Args) Validate() error {
 	}
 	if args.Amount == nil || args.Amount.Sign() <= 0 {
 		return errors.New("invalid amount")
+	}
+	if args.Amount.BitLen() > 128 {
+		return errors.New("amount too large")
 	}
 	return nil
 }
